@@ -1,0 +1,49 @@
+//go:build verif
+
+package blob
+
+// Contracts checked by /verif (govc). Comment-only file; not part of normal builds.
+
+// C01: a read that ends in io.EOF (the only value io.ReadAll / io.Copy turn into a nil error)
+// implies that the byte count equals the descriptor's size (when one was given) and that the
+// digester the bytes were tee'd into reports the descriptor's digest (when that was valid).
+//@ func (*BReader).Read(p) (n, err)
+//@   prop C01
+//@   overflow on
+//@   let size0 = r.desc.Size
+//@   let dig0 = r.desc.Digest
+//@   let rb0 = r.readBytes
+//@   let dg0 = r.digester
+//@   let rdr0 = r.reader
+//@   entry-assume r != nil ==> r.readBytes >= 0 && r.readBytes <= 4611686018427387904
+//@   ensures no-reader-is-error: (r == nil || rdr0 == nil) ==> err != nil && err != io.EOF && n == 0
+//@   ensures count: r != nil && rdr0 != nil ==> r.readBytes == rb0 + n
+//@   ensures eof-size: err == io.EOF && size0 != 0 ==> r.readBytes == size0
+//@   ensures eof-digest: err == io.EOF && $valid(dig0) ==> dig0 == $digestAt(dg0, $hv)
+//@   ensures eof-desc-truthful: err == io.EOF ==> r.desc.Size == r.readBytes && r.desc.Digest == $digestAt(dg0, $hv)
+//@   ensures wiring-kept: r != nil ==> r.digester == dg0 && r.reader == rdr0
+
+// After a successful rewind the count restarts and the bytes are tee'd into a fresh digester
+// through a fresh limit (when a size is known): the same guarantee applies to the second pass.
+//@ func (*BReader).Seek(offset, whence) (o, err)
+//@   prop C01
+//@   let rb0 = r.readBytes
+//@   let dg0 = r.digester
+//@   let rdr0 = r.reader
+//@   ensures rewind-resets: err == nil && offset == 0 && whence == io.SeekStart && o == 0 ==> r.readBytes == 0
+//@   ensures rewind-rewires: err == nil && offset == 0 && whence == io.SeekStart && o == 0 ==> $hashOf(r.digester) == $teeDst(r.reader)
+//@   ensures rewind-fresh-digester: err == nil && offset == 0 && whence == io.SeekStart && o == 0 ==> $emptyAt(r.digester, $hv)
+//@   ensures rewind-unlimited: err == nil && offset == 0 && whence == io.SeekStart && o == 0 && r.desc.Size <= 0 ==> $teeSrc(r.reader) == r.origRdr
+//@   ensures rewind-limit: err == nil && offset == 0 && whence == io.SeekStart && o == 0 && r.desc.Size > 0 ==> $dyntype($teeSrc(r.reader), *limitread.LimitRead) && $unbox($teeSrc(r.reader), *limitread.LimitRead).Limit == r.desc.Size && $unbox($teeSrc(r.reader), *limitread.LimitRead).Reader == r.origRdr
+//@   ensures other-seeks-keep-state: err != nil || !(offset == 0 && whence == io.SeekStart) ==> r == nil || (r.readBytes == rb0 && r.digester == dg0 && r.reader == rdr0)
+
+// Construction: a reader is wired so that everything read goes through the limit (when a size is
+// known) and into a fresh digester.
+//@ func NewReader(opts) (br)
+//@   prop C01
+//@   ensures not-nil: br != nil
+//@   ensures zero-count: br.readBytes == 0
+//@   ensures wired: br.reader != nil ==> $hashOf(br.digester) == $teeDst(br.reader) && $emptyAt(br.digester, $hv)
+//@   ensures limited: br.reader != nil && br.desc.Size > 0 ==> $dyntype($teeSrc(br.reader), *limitread.LimitRead) && $unbox($teeSrc(br.reader), *limitread.LimitRead).Limit == br.desc.Size && $unbox($teeSrc(br.reader), *limitread.LimitRead).Reader == br.origRdr
+//@   ensures unlimited: br.reader != nil && br.desc.Size <= 0 ==> $teeSrc(br.reader) == br.origRdr
+//@   ensures reader-iff-source: (br.reader != nil) == (br.origRdr != nil)
